@@ -5,7 +5,8 @@ coq/Gen/Src_network.v; Proofs/SrcNetwork.v proves that the parsed rule lists com
 cleanup_lights and the parsed remove frames net_remove_* of Model/Network.v, which the C10 theorems are about.
 
 Fail-closed: a statement outside the shapes listed in Model/NetworkSrc.v raises SourceShapeError (a broken obligation).
-Loop variables and `existing_ids` may have any names.
+The methods are first brought into the normal form of vlib/astnorm.py, so that a harmless rewrite (a helper extracted, an
+early return, a local alias) gives the same shapes.  Loop variables and `existing_ids` may have any names.
 
 Trusted: this parser and the reading of the accepted shapes (a Python set / list of ids = a list compared as a set;
 `x.intersection(existing)` and `list(set(x).intersection(existing))` = filter by membership; LaneletNetwork.lanelets /
@@ -17,6 +18,7 @@ import os
 
 from vlib.core import COQ, REPO
 from vlib.py2coq import write_if_changed
+from vlib import astnorm as N
 
 FILE = os.path.join("commonroad", "scenario", "lanelet.py")
 
@@ -34,12 +36,18 @@ def body_of(fn):
                                        and isinstance(s.value.value, str))]
 
 
+KEEP = ("cleanup_lanelet_references", "cleanup_traffic_sign_references", "cleanup_traffic_light_references",
+        "_create_strtree")
+
+
 def method(tree, name):
+    """the method in the normal form of vlib/astnorm.py (helpers inlined, guard clauses / nested ifs as one decision
+    tree, aliases and single-use temporaries removed, `x in d.keys()` = `x in d`)"""
     for c in tree.body:
         if isinstance(c, ast.ClassDef) and c.name == "LaneletNetwork":
             hits = [f for f in c.body if isinstance(f, ast.FunctionDef) and f.name == name]
             if len(hits) == 1 and not hits[0].decorator_list:
-                return hits[0]
+                return N.normal(hits[0], N.class_methods(tree, "LaneletNetwork"), KEEP)
     raise SourceShapeError(f"LaneletNetwork.{name} not found (or decorated / defined twice)")
 
 
